@@ -126,7 +126,9 @@ def _names_a_position(exception):
     """
     def whole(number, least):
         return type(number) is int and number >= least
-    return (isinstance(exception, SyntaxError)
+    # (asked of the class: isinstance() would go through the object's own
+    # __getattribute__, which a program's exception class may have rewritten)
+    return (issubclass(type(exception), SyntaxError)
             and whole(exception.lineno, 1)
             and (exception.offset is None or whole(exception.offset, 0))
             and isinstance(exception.filename, str)
